@@ -43,6 +43,8 @@ def compile_java(build_dir):
     out = os.path.join(build_dir, "java")
     os.makedirs(out, exist_ok=True)
     jroot = os.path.join(REPO, "java", "com", "grammatech", "gtirb")
+    if not os.path.isdir(os.path.join(jroot, "auxdatacodec")):
+        return None, "Java codec sources not found under %s" % REPO
     srcs = [os.path.join(VERIF, "java", "com", "google", "protobuf", "ByteString.java"), os.path.join(VERIF, "java", "Driver.java"), os.path.join(jroot, "Offset.java"), os.path.join(jroot, "Util.java")]
     for sub in ("auxdatacodec", "tuple", "variant"):
         d = os.path.join(jroot, sub)
